@@ -29,27 +29,25 @@ def v3_public_key_admission(facts, rule):
     b = bs[0]
     v = M.view(facts, b)
     file, line = v.file(), b["line"]
-    I = A.Interp(facts, MD.MODELS)
-    st = A.State()
-    st.bounds["tag"] = (0, 255)
-    elems = [A.Aff.sym("tag")] + [A.Sym("x%d" % i) for i in range(48)]
-    key = A.Struct("crate::core::key::keys::Key", None, {"0": A.Seq("public_key", A.Aff(49), elems, kind="array")})
-    outs = I.run(b, [A.Ptr(st.new_cell(key))], st)
-    und = [o for o in outs if o.kind not in ("return",) or o.state.unmodelled or any("undecided" in n for n in o.state.notes)]
-    if und or not outs:
-        o = und[0] if und else None
-        why = "no outcome" if o is None else "%s %s; unmodelled %s; when [%s]" % (o.kind, o.value if o.kind != "return" else "", o.state.unmodelled[:2], " & ".join(o.state.cond)[-160:])
-        return [Finding(rule, None, b["id"], "v3 public key constructor not decided by the abstract interpreter", why, file, line)]
+    # each of the 256 values of the first byte in turn (a concrete byte, the 48 coordinate bytes symbolic): exact for comparisons, ranges,
+    # patterns, masks and table lookups alike
     acc, ref = set(), set()
-    for o in outs:
-        r = I.resolve(o.state, o.value)
-        s = _admitted(o.state, "tag")
-        if isinstance(r, A.Struct) and r.variant == "Ok":
-            acc |= s
-        elif isinstance(r, A.Struct) and r.variant == "Err":
-            ref |= s
-        else:
-            return [Finding(rule, None, b["id"], "v3 public key constructor not decided by the abstract interpreter", "an outcome is neither Ok nor Err: %r" % (r,), file, line)]
+    for t in range(256):
+        I = A.Interp(facts, MD.MODELS)
+        st = A.State()
+        elems = [A.Aff(t, ty="u8")] + [A.Sym("x%d" % i) for i in range(48)]
+        key = A.Struct("crate::core::key::keys::Key", None, {"0": A.Seq("public_key", A.Aff(49), elems, kind="array")})
+        outs = I.run(b, [A.Ptr(st.new_cell(key))], st)
+        und = [o for o in outs if o.kind not in ("return",) or o.state.unmodelled or any("undecided" in n for n in o.state.notes)]
+        kinds = set()
+        for o in outs:
+            r = I.resolve(o.state, o.value)
+            kinds.add(r.variant if isinstance(r, A.Struct) and r.variant in ("Ok", "Err") else "?")
+        if und or not outs or "?" in kinds or len(kinds) != 1:
+            o = und[0] if und else None
+            why = "first byte %d: " % t + ("outcomes %s" % sorted(kinds) if o is None else "%s %s; unmodelled %s; when [%s]" % (o.kind, o.value if o.kind != "return" else "", o.state.unmodelled[:2], " & ".join(o.state.cond)[-160:]))
+            return [Finding(rule, None, b["id"], "v3 public key constructor not decided by the abstract interpreter", why, file, line)]
+        (acc if kinds == {"Ok"} else ref).add(t)
     out = []
     lost = sorted(SEC1_COMPRESSED & ref)
     extra = sorted(acc - SEC1_COMPRESSED)
